@@ -43,6 +43,15 @@ pub assume_specification<'a, K: Eq + std::hash::Hash + std::borrow::Borrow<Q>, V
             }
         };
 
+// mirrors vstd's own specification of Entry::or_insert (std_specs/hash.rs), with the default produced by the closure
+pub assume_specification<'a, K, V, A: std::alloc::Allocator, F: FnOnce() -> V>
+    [std::collections::hash_map::Entry::<'a, K, V, A>::or_insert_with](entry: std::collections::hash_map::Entry<'a, K, V, A>, default: F) -> (value: &'a mut V)
+    requires
+        default.requires(()),
+    ensures
+        match entry.value() { Some(v) => *value == v, None => default.ensures((), *value) },
+        entry.final_value() == Some(*final(value));
+
 // ---- abstract view -------------------------------------------------------------
 pub const DIM_MAX: u32 = 65535;
 pub const ARG_MAX: u32 = 9999;
